@@ -410,9 +410,10 @@ type ecpairCase struct {
 	Class string
 	N     int
 	A, B  []*big.Int
-	Tweak string // isong2: "subgroup" | "twist-not-subgroup" | "off-twist" | "identity"
+	Tweak string // isong2: "subgroup" | "twist-not-subgroup" | "off-twist" | "identity"; ecpair, mlfe: "scaled-off-twist"
 	Flag  int    // claimed boolean (isong2, mlfe)
 	Seed  uint64
+	Sig   string // replaces Class in a violation signature (one root cause, several classes)
 }
 
 func (c *ecpairCase) key() string {
@@ -495,6 +496,26 @@ func execEcpair(raw json.RawMessage) outcome {
 		}
 		want = (c.Flag == 1) == ok
 	}
+	if c.Tweak == "scaled-off-twist" && (c.Kind == "ecpair" || c.Kind == "mlfe") {
+		// "2- Check that Qᵢ are on G2 (done in `computeLines` in `MillerLoopAndMul`
+		// and `MillerLoopAndFinalExpCheck`)": (x,y) -> (4x,8y) maps a point of G2
+		// onto y² = x³ + 64·b', off the twist; the endomorphism relation of the
+		// subgroup test and the line formulas do not involve b', so only the
+		// twist equation tells the point apart.  ecpair: every Qᵢ (the native
+		// product on the genuine points is one); mlfe: the Q the gadget receives.
+		from := 0
+		if c.Kind == "mlfe" {
+			from = 1
+		}
+		for i := from; i < c.N; i++ {
+			Q[i].X.Double(&Q[i].X).Double(&Q[i].X)
+			Q[i].Y.Double(&Q[i].Y).Double(&Q[i].Y).Double(&Q[i].Y)
+			if Q[i].IsOnCurve() {
+				return outcome{Err: "harness: scaled point is on the twist"}
+			}
+		}
+		want = false
+	}
 	for i := 0; i < maxPairs; i++ {
 		asg.P[i] = sw_bn254.NewG1Affine(P[i])
 		asg.Q[i] = sw_bn254.NewG2Affine(Q[i])
@@ -529,6 +550,13 @@ func genEcpair(rng *rand.Rand, quick bool) []*ecpairCase {
 		&ecpairCase{Kind: "mlfe", Class: "product=1,flag=1", N: 2, A: []*big.Int{a, neg(mul(a, b))}, B: []*big.Int{b, one}, Flag: 1},
 		&ecpairCase{Kind: "mlfe", Class: "product!=1,flag=0", N: 2, A: []*big.Int{a, mul(a, b)}, B: []*big.Int{b, one}, Flag: 0},
 		&ecpairCase{Kind: "mlfe", Class: "product!=1,flag=1(must-reject)", N: 2, A: []*big.Int{a, mul(a, b)}, B: []*big.Int{b, one}, Flag: 1},
+		// a Q outside G2 (off the twist, subgroup relation intact) must be rejected
+		// whatever the product / the claimed flag; G1 membership is "done in the
+		// zkEVM ⚠️", i.e. not a check of these gadgets: no such case for P
+		&ecpairCase{Kind: "ecpair", Class: "n=2,Q=scaled-subgroup-point(4x,8y)-off-twist,P1=-P0,Q1=Q0(must-reject)", N: 2, A: []*big.Int{a, neg(a)}, B: []*big.Int{b, b},
+			Tweak: "scaled-off-twist", Sig: "Q=scaled-subgroup-point(4x,8y)-off-twist"},
+		&ecpairCase{Kind: "mlfe", Class: "n=2,Q1=scaled-subgroup-point(4x,8y)-off-twist,flag=0(must-reject)", N: 2, A: []*big.Int{a, mul(a, b)}, B: []*big.Int{b, one}, Flag: 0,
+			Tweak: "scaled-off-twist", Sig: "Q=scaled-subgroup-point(4x,8y)-off-twist"},
 	)
 	if !quick {
 		c, e := rk(), rk()
@@ -552,6 +580,10 @@ func judgeEcpair(r *vcore.Run, c *ecpairCase, o outcome) {
 		return
 	}
 	want := o.Vals["want"] == "true"
+	sig := c.Class
+	if c.Sig != "" {
+		sig = c.Sig
+	}
 	rep := c.replay()
 	rep["error"] = o.Err
 	rep["native_says_satisfiable"] = want
@@ -561,10 +593,10 @@ func judgeEcpair(r *vcore.Run, c *ecpairCase, o outcome) {
 		r.SampleClass("evm/"+c.Kind+"/"+c.Class, map[string]any{"satisfiable": o.Sat})
 	case o.Sat:
 		r.Count("evm.ecpair.ACCEPTED-what-native-rejects", 1)
-		r.Violation(fam+"/ACCEPTS-what-the-native-library-rejects/"+c.Class, fam+" is satisfiable although the native computation rejects: "+c.Class, rep)
+		r.Violation(fam+"/ACCEPTS-what-the-native-library-rejects/"+sig, fam+" is satisfiable although the native computation rejects: "+c.Class, rep)
 	default:
 		r.Count("evm.ecpair.REJECTED-what-native-accepts", 1)
-		r.Violation(fam+"/rejects-what-the-native-library-accepts/"+c.Class, fam+" is unsatisfiable although the native computation accepts: "+c.Class+": "+o.Err, rep)
+		r.Violation(fam+"/rejects-what-the-native-library-accepts/"+sig, fam+" is unsatisfiable although the native computation accepts: "+c.Class+": "+o.Err, rep)
 	}
 }
 
